@@ -11,9 +11,12 @@ from . import thir as T
 
 
 class Spec:
-    def __init__(self, F, max_depth=3, assume=None):
+    def __init__(self, F, max_depth=3, assume=None, follow_calls=False):
         self.F = F
         self.max_depth = max_depth
+        # follow_calls: reach() also lists the nodes of crate-local callees at the position of the call (parameters bound to
+        # the constant arguments), so that order and presence questions do not depend on helper extraction
+        self.follow_calls = follow_calls
         # assume(node) -> constant | None : lets a rule fix the value of an expression that is not a variable
         # (e.g. "the scrutinee `edge.weight()` is an Edge::Jump")
         self.assume = assume
@@ -65,6 +68,12 @@ class Spec:
                 is_eq = (n.get("o") == "Eq") if k == "Binary" else (n.get("n") == "eq")
                 return ("bool", same == is_eq)
             return None
+        if k == "Let":
+            c = self.cev(n["e"], env, depth)
+            if c is None:
+                return None
+            r = self.pat_matches(n["p"], c)
+            return ("bool", r) if r is not None else None
         if k == "Field":
             c = self.cev(n["e"], env, depth)
             if c and c[0] == "tuple" and isinstance(n.get("fi"), int) and n["fi"] < len(c[1]):
@@ -249,6 +258,15 @@ class Spec:
                 d = True
         if k == "Call" and T.diverges(n):
             return True
+        if k == "Call" and self.follow_calls and depth < self.max_depth:
+            g = self.F.by_path.get(n.get("r") or "") or self.F.by_path.get(n.get("f") or "")
+            if g is not None and g.get("dk") in ("Fn", "AssocFn") and len(g["params"]) == len(n.get("a", [])) and sum(1 for _ in T.walk(g["body"])) < 600:
+                env2 = {}
+                for p_, a_ in zip(g["params"], n["a"]):
+                    c = self.cev(a_, env, depth)
+                    if c is not None and p_.get("p"):
+                        self.bind(p_["p"], c, env2)
+                self._reach(g["body"], env2, out, depth + 1)
         return d if k in T.WRAPPERS or k in ("Use", "NeverToAny", "Scope") else False
 
     # ---- results
